@@ -47,9 +47,18 @@ class SetMutator(CollectionAttrMutator):
             raise ValueError(
                 f"Attempted to add an invalid item `{repr(item)}` to `{self.attr_spec.qualified_name}`. Expected item of type `{type_label(self.attr_spec.item_type)}`."
             )
+        replaced = MISSING
         if index is not MISSING and replace:
+            _, replaced = self._extractor(index)
             self.collection.discard(index)
-        self.collection.add(item)
+        try:
+            self.collection.add(item)
+        except Exception:
+            # The collection itself rejected the new item (e.g. a keyed set);
+            # do not lose the one it was going to replace.
+            if replaced is not MISSING:
+                self.collection.add(replaced)
+            raise
 
     def add_item(self, item, *, value_or_index=MISSING, replace=True, attrs=None):  # pylint: disable=arguments-differ
         return self._mutate_collection(
